@@ -22,6 +22,7 @@ def main():
     sid, prop, src = sys.argv[1:4]
     tier = "quick"
     also = []
+    race = ""
     args = sys.argv[4:]
     while args:
         a = args.pop(0)
@@ -29,6 +30,8 @@ def main():
             tier = args.pop(0)
         elif a == "--also":
             also = args.pop(0).split(",")
+        elif a == "--race":
+            race = "-race "
     patch = os.path.join(src, "patch.diff")
     demo = os.path.join(src, "demo_test.go")
     out = os.path.join("/verif/seeded", sid)
@@ -54,19 +57,25 @@ def main():
         meta["ran"].append("go test -vet=off -count=1 ./... with the change: %s" % ("all ok" if suite_green else o[-400:]))
         # demonstration
         first = open(demo).readline()
-        m = re.search(r"copy to (\S+)(?: as (\S+))?", first)
-        ddir = m.group(1) if m else "."
-        ddir = ddir.replace("<repo>/", "").strip("/") or "."
-        dname = (m.group(2) if m and m.group(2) else "zz_demo_test.go")
+        m = re.search(r"/tmp/seed-c\d+(/[\w/.\-]+)?", first)
+        if m:
+            ddir = (m.group(1) or ".").strip("/") or "."
+        else:
+            m = re.search(r"copy to (\S+)", first)
+            tok = m.group(1) if m else "."
+            ddir = "." if tok in ("the", "module", "root", "repo", "repository") else tok.strip("/")
+            ddir = ddir.replace("<repo>/", "") or "."
+        m = re.search(r"as (\S+_test\.go)", first)
+        dname = m.group(1) if m else "zz_demo_test.go"
         tests = re.findall(r"^func (Test\w+)\(", open(demo).read(), re.M)
         run = "^(%s)$" % "|".join(tests)
         res = {}
         for label, d in (("with", wt), ("without", wt0)):
             os.makedirs(os.path.join(d, ddir), exist_ok=True)
             shutil.copyfile(demo, os.path.join(d, ddir, dname))
-            rc, o = sh("go test -vet=off -count=1 -run '%s' ./%s" % (run, ddir), cwd=d, timeout=1200)
+            rc, o = sh("go test %s-vet=off -count=1 -run '%s' ./%s" % (race, run, ddir), cwd=d, timeout=1200)
             res[label] = rc
-            meta["ran"].append("demo (%s in ./%s) %s the change: rc=%d" % (run, ddir, label, rc))
+            meta["ran"].append("demo (go test %s-run %s ./%s) %s the change: rc=%d" % (race, run, ddir, label, rc))
             os.remove(os.path.join(d, ddir, dname))
         meta["demo_fails_with_change"] = res["with"] != 0
         meta["demo_passes_without_change"] = res["without"] == 0
